@@ -15,7 +15,7 @@ use refimpl::server::{apply_fault, FaultKind};
 use serde::{Deserialize, Serialize};
 
 pub const LEVEL: &str = "fault_enumeration";
-pub const RULE: &str = "faults injected into valid CredSSP / NTLM server messages; cssp-stream: cssp_connect over a scripted raw stream whose first TSRequest has a size on and around the client's 1500-byte read size and its multiples with DER headers announcing less / exactly / more, served whole, in pieces or byte by byte, then end of stream (spin = more than 64 reads at end of stream); tsrequest-fields: TSRequests of versions 1..7 whose optional fields [1]..[6] hold INTEGERs (small values, boundaries, the NTSTATUS and SEC_E ranges for the errorCode field), OCTET STRINGs and nested sequences, at read_ts_server_challenge and read_ts_validate; sealed-sequences: several correctly sealed tokens with increasing / repeated / decreasing / wrapping sequence numbers on one context; accepted CHALLENGEs are followed by what cssp_connect does next (credential getters, build_security_interface, one wrap) under ASCII, Latin-1, CJK, supplementary-plane and empty identities; big-target-info: well-formed CHALLENGEs whose target information has every total length in 64936..=65535 (and a coarse sweep below) read with identities of four sizes. direct entries Ntlm::read_challenge_message, cssp::read_ts_server_challenge, cssp::read_ts_validate, gss_unwrapex: every scalar field of a CHALLENGE (all 16-bit lengths and 32-bit offsets at their boundaries, flags, every AvId 0..0x20 and 0xffff, AV lengths) swept over boundary values (field-sweep, enumerated over several challenge layouts incl. missing timestamp, missing EOL, zero-length target info), truncation at every byte, extensions, xor corruption and double faults (generated); TSRequest trees with empty / multiple / missing negoTokens, wrong tags, BER forms; all byte strings of length <= 2 (3 thorough) at each entry. tls section: whole NLA handshakes through Connector::connect where the server's CHALLENGE TSRequest or final reply is replaced by a faulty one. Oracle: Ok or Err, never a panic / spin / disproportionate allocation. Non-trivial = the message differs from a conforming one; distinct by hash of the case.";
+pub const RULE: &str = "faults injected into valid CredSSP / NTLM server messages; der-length-forms: every TLV header of honest TSRequests with its length in every long form of 1..8 octets (true value, all ones, 0x7F.., 0x80 00.., one too many), indefinite and reserved, at both TSRequest readers and through cssp_connect; cssp-stream: cssp_connect over a scripted raw stream whose first TSRequest has a size on and around the client's 1500-byte read size and its multiples with DER headers announcing less / exactly / more, served whole, in pieces or byte by byte, then end of stream (spin = more than 64 reads at end of stream); tsrequest-fields: TSRequests of versions 1..7 whose optional fields [1]..[6] hold INTEGERs (small values, boundaries, the NTSTATUS and SEC_E ranges for the errorCode field), OCTET STRINGs and nested sequences, at read_ts_server_challenge and read_ts_validate; sealed-sequences: several correctly sealed tokens with increasing / repeated / decreasing / wrapping sequence numbers on one context; accepted CHALLENGEs are followed by what cssp_connect does next (credential getters, build_security_interface, one wrap) under ASCII, Latin-1, CJK, supplementary-plane and empty identities; big-target-info: well-formed CHALLENGEs whose target information has every total length in 64936..=65535 (and a coarse sweep below) read with identities of four sizes. direct entries Ntlm::read_challenge_message, cssp::read_ts_server_challenge, cssp::read_ts_validate, gss_unwrapex: every scalar field of a CHALLENGE (all 16-bit lengths and 32-bit offsets at their boundaries, flags, every AvId 0..0x20 and 0xffff, AV lengths) swept over boundary values (field-sweep, enumerated over several challenge layouts incl. missing timestamp, missing EOL, zero-length target info), truncation at every byte, extensions, xor corruption and double faults (generated); TSRequest trees with empty / multiple / missing negoTokens, wrong tags, BER forms; all byte strings of length <= 2 (3 thorough) at each entry. tls section: whole NLA handshakes through Connector::connect where the server's CHALLENGE TSRequest or final reply is replaced by a faulty one. Oracle: Ok or Err, never a panic / spin / disproportionate allocation. Non-trivial = the message differs from a conforming one; distinct by hash of the case.";
 
 #[derive(Serialize, Deserialize, Hash, Clone, Debug)]
 pub enum Case {
@@ -601,6 +601,24 @@ pub fn check(rep: &Report) {
     let tier = rep.tier;
     rep.enumerate("field-sweep", true, move |p, n| sweep(tier, p, n), run);
     rep.list("cssp-stream", stream_cases(), run);
+    // every TLV header of honest TSRequests (challenge round, final round) with its length in every long form up to 8 octets
+    // (true value, all ones, 0x7F.., 0x80 00.., one too many), the indefinite and the reserved form, at the two TSRequest
+    // readers and through cssp_connect
+    {
+        let ch = ntlm::build_challenge(&base_challenges()[0]);
+        let round2 = ntlm::build_ts_request(2, Some(&ch.bytes), None, None, LenForm::Minimal);
+        let round4 = ntlm::build_ts_request(2, None, None, Some(&sealed_token(270).bytes), LenForm::Minimal);
+        let mut dl = Vec::new();
+        for m in refimpl::wire::der_length_mutations(&round2, 0) {
+            dl.push(Case::Raw { entry: 1, data: m.clone() });
+            dl.push(Case::Stream { data: m, schedule: vec![] });
+        }
+        for m in refimpl::wire::der_length_mutations(&round4, 0) {
+            dl.push(Case::Raw { entry: 2, data: m.clone() });
+            dl.push(Case::Raw { entry: 1, data: m });
+        }
+        rep.list("der-length-forms", dl, run);
+    }
     // TSRequests of every protocol version with each optional field [1]..[6] present as INTEGER, OCTET STRING or nested
     // SEQUENCE, the integers swept over small values, boundaries and the NTSTATUS range (the errorCode of CredSSP v3+)
     let mut tsr = Vec::new();
